@@ -8,10 +8,23 @@ from common import run_model, shrink_text
 
 ID = "C03"
 LEVEL = "other"
-GEN = ["RxGen", "UnicodeGen", "SubSitesGen"]
+GEN = ["RxGen", "UnicodeGen", "SubSitesGen", "BlockGen", "InlineGen", "UtilGen"]
 COQ = ["Props/C03.vo"]
 EXPLANATION = (
-    "PARTIAL proof + oracle. Proved (coq/Props/C03.v), for every subject string: (1) each of the pattern.sub and str.replace "
+    "PARTIAL proof + oracle. Proved (coq/Props/C03.v): (4) TEXT CONSERVATION OF THE BLOCK PARSER, for every text: on the executable "
+    "model of BlockParser / list_parser / BlockState (coq/Model/Block.v, tied to the source by control skeletons with constants, "
+    "the regenerated patterns of BlockGen and a token-tree + reference-table correspondence run), for every ASCII letter x the "
+    "number of x in the source equals the number of x in the text fields of the block token tree (paragraph and heading text, "
+    "code and info strings, HTML blocks, at every depth of quotes and lists, lazy continuation lines and interrupting blocks "
+    "included) plus the number in the reference table (label, title, and a pre-image of the destination under escape_url) plus "
+    "what was discarded - and something is discarded only when a link reference definition repeats a label that is already "
+    "defined (C03_block_parse_conserves_letters, by induction over every handler and loop of the model; Proofs/BlockCons.v, "
+    "1400 lines). Corollaries: nothing is ever emitted twice (C03_block_parse_never_duplicates) and a text without reference "
+    "definitions loses nothing (C03_block_parse_loses_nothing). The facts about the regenerated patterns are new reflective "
+    "analyses proved sound against the regex semantics (Proofs/RxCov.v): the kept characters of a match lie inside the capture "
+    "the handler keeps (cov), a capture is clean (gav), a match ends at a line end (eol), ends with a newline (endsnl), is "
+    "quoted (quoted); find_line_end never skips a newline; _LINE_HAS_TEXT fails only on white space (engine completeness). "
+    "Also proved, for every subject string: (1) each of the pattern.sub and str.replace "
     "call sites of the parse path - enumerated from the current source by the translator, with pattern, replacement and "
     "count - keeps the sequence of ASCII letters and digits of its argument (RxAnalysis.avoids on the regenerated pattern, a "
     "model of CPython's sub loop including must_advance, and captures-lie-inside-the-match for the group templates), so "
@@ -19,13 +32,15 @@ EXPLANATION = (
     "removal, definition-list and spoiler markers and back-slash unescaping can delete or insert only punctuation and white "
     "space; (2) a captured group is a stretch of what its match consumed; (3) loop-level partition: if every step records "
     "spans tiling the stretch the cursor moved over, the final spans tile the source and their slices concatenate to it. "
-    "NOT proved: that each handler records exactly its consumed stretch (needs the parser model). That is decided by the "
+    "NOT proved: the inline pass (link destinations, titles and labels inside paragraphs) and the plugins' block rules. "
+    "That is decided by the "
     "oracle: every word of a generated document is replaced by a unique token and must occur exactly once in the token tree "
     "(raw leaves, destinations, titles, info strings, labels) or, for reference definitions, in env['ref_links'].")
 ASSUMPTIONS = ["words = maximal runs of ASCII letters/digits beginning with a letter; list ordinals and the words of ignored duplicate "
                "definitions are outside the claim (the generator produces no duplicate labels)"]
-TRUSTED = ["tools/translate.py gen_subsites (which calls are document rewrites; the exclusions are listed in coq/Gen/SubSitesGen.v)"]
-TECHNIQUE = "Coq: letters-and-digits preservation of every sub/replace call site (regenerated), captures inside matches, loop partition; conservation over whole documents by unique-word accounting"
+TRUSTED = ["tools/translate.py gen_subsites (which calls are document rewrites; the exclusions are listed in coq/Gen/SubSitesGen.v)",
+           "tools/skeletons/bp_* lp_* bstate_* hp_* (block parser model tie)"]
+TECHNIQUE = "Coq: letter conservation of the whole block parser model by induction over its handlers and loops (multiset of ASCII letters: source = tree + reference table + dropped duplicate definitions), reflective regex analyses proved sound; letters-and-digits preservation of every sub/replace call site; inline pass and plugins by unique-word accounting"
 
 WORD = re.compile(r"[A-Za-z][A-Za-z0-9]*")
 RESERVED = {"pre", "script", "style", "textarea", "div", "table", "p", "http", "https", "www", "x", "X", "CDATA", "mailto"}
@@ -218,6 +233,16 @@ ALPH = list(" \t\n>#!:\\ab1*-") + ["  ", "   ", "    ", "\n\n", "> ", " \n", "\\
 
 
 def correspondence(ctx):
+    """the block parser model against BlockParser (token trees and reference tables), and the sub/replace model against CPython"""
+    import corr_block
+    a = _sub_correspondence(ctx)
+    b = corr_block.run(ctx, ctx.n(1500, 20000))
+    return {"evaluations": a["evaluations"] + b["evaluations"], "disagreements": (b["disagreements"] + a["disagreements"])[:20],
+            "parts": {"sub/replace call sites": a["evaluations"], "block parser model (tokens and table)": b["evaluations"]},
+            "sites": a.get("sites"), "samples": a.get("samples", [])}
+
+
+def _sub_correspondence(ctx):
     """the model of Pattern.sub / str.replace against CPython on the patterns and replacements of the call sites"""
     import translate
     subs, reps, _d, _n = translate.collect_subsites()
